@@ -871,6 +871,191 @@ theorem gcp_zoom_to_shape_arg_footprint (P : Pt → Pt) (g g' : GeoBox) (s : Sha
   simp only [pix2wld] at this
   simp only [gcpPix2wld, this]
 
+/-! ## 10. rotation: composition law and exact quarter turns -/
+
+/-- **`rotate` composes by angle addition**, for all rotation entries (no `c² + s² = 1` needed): rotating about the
+centre and then again about the (unchanged) centre is one rotation with `(c, s) = (c₂c₁ − s₂s₁, s₂c₁ + c₂s₁)`. -/
+theorem rotate_compose (g : GeoBox) (c1 s1 c2 s2 : Rat) :
+    rotate (rotate g c1 s1) c2 s2 = rotate g (c2 * c1 - s2 * s1) (s2 * c1 + c2 * s1) := by
+  obtain ⟨ny, nx, ⟨a, b, c, d, e, f⟩, crs⟩ := g
+  simp only [rotate, mulWld, rotationAbout, Aff.mul_def, Aff.mul, Aff.apply, GeoBox.mk.injEq, true_and, and_true]
+  apply Aff.ext' <;> simp <;> ring
+
+theorem quarterCS_cases (k : Int) :
+    (k % 4 = 0 ∧ quarterCS k = (1, 0)) ∨ (k % 4 = 1 ∧ quarterCS k = (0, 1)) ∨
+    (k % 4 = 2 ∧ quarterCS k = (-1, 0)) ∨ (k % 4 = 3 ∧ quarterCS k = (0, -1)) := by
+  have h : k % 4 = 0 ∨ k % 4 = 1 ∨ k % 4 = 2 ∨ k % 4 = 3 := by omega
+  rcases h with h | h | h | h <;> simp [quarterCS, h]
+
+/-- **`rotate(90a).rotate(90b) = rotate(90(a+b))`** exactly (shape, affine, CRS), `rotate(360) = rotate(0) = id`. -/
+theorem rotate_quarter_add (g : GeoBox) (a b : Int) :
+    rotateQuarter (rotateQuarter g a) b = rotateQuarter g (a + b) ∧
+    rotateQuarter g 0 = g ∧ rotateQuarter g 4 = g := by
+  have id0 : rotate g 1 0 = g := (view_algebra g).2.2.2.2.2.2.2.1
+  refine ⟨?_, by simpa [rotateQuarter, quarterCS] using id0, by simpa [rotateQuarter, quarterCS] using id0⟩
+  simp only [rotateQuarter, rotate_compose]
+  rcases quarterCS_cases a with ⟨ha, ea⟩ | ⟨ha, ea⟩ | ⟨ha, ea⟩ | ⟨ha, ea⟩ <;>
+  rcases quarterCS_cases b with ⟨hb, eb⟩ | ⟨hb, eb⟩ | ⟨hb, eb⟩ | ⟨hb, eb⟩ <;>
+  rcases quarterCS_cases (a + b) with ⟨hc, ec⟩ | ⟨hc, ec⟩ | ⟨hc, ec⟩ | ⟨hc, ec⟩ <;>
+  first
+  | (exfalso; omega)
+  | (rw [ea, eb, ec]; norm_num)
+
+/-- a half turn is the point reflection in the centre of the footprint; a quarter turn keeps shape and CRS and
+fixes the centre. -/
+theorem rotate_quarter_spec (g : GeoBox) (k : Int) (p : Pt) :
+    (rotateQuarter g k).ny = g.ny ∧ (rotateQuarter g k).nx = g.nx ∧ (rotateQuarter g k).crs = g.crs ∧
+    pix2wld (rotateQuarter g k) ((g.nx : Rat) / 2, (g.ny : Rat) / 2) = pix2wld g ((g.nx : Rat) / 2, (g.ny : Rat) / 2) ∧
+    (k % 4 = 2 →
+      pix2wld (rotateQuarter g k) p
+        = (2 * (pix2wld g ((g.nx : Rat) / 2, (g.ny : Rat) / 2)).1 - (pix2wld g p).1,
+           2 * (pix2wld g ((g.nx : Rat) / 2, (g.ny : Rat) / 2)).2 - (pix2wld g p).2)) := by
+  refine ⟨rfl, rfl, rfl, rotate_fixes_centre g _ _, ?_⟩
+  intro hk
+  have : quarterCS k = (-1, 0) := by simp [quarterCS, hk]
+  simp only [rotateQuarter, this, rotate, mulWld, pix2wld, rotationAbout, Aff.apply, Aff.mul_def, Aff.mul]
+  ext <;> simp <;> ring
+
+/-! ## 11. window / zoom / affine-composition laws -/
+
+/-- **crop undoes pad**: the window `[pady : pady + ny, padx : padx + nx]` of `gbox.pad(padx, pady)` is `gbox`. -/
+theorem crop_of_pad (reproj : Nat → Nat → Pt → Pt) (g : GeoBox) (padx pady : Int) (hx : 0 ≤ padx) (hy : 0 ≤ pady)
+    (hny : 0 ≤ g.ny) (hnx : 0 ≤ g.nx) :
+    getitem reproj (pad g padx (some pady))
+      (.seq [.slc (some pady) (some (pady + g.ny)) none, .slc (some padx) (some (padx + g.nx)) none]) = .ok g := by
+  have wr : ∀ (n a : Int), 0 ≤ a → wrapNeg n a = a := by intro n a ha; simp [wrapNeg, ha]
+  obtain ⟨ny, nx, ⟨a, b, c, d, e, f⟩, crs⟩ := g
+  simp only [getitem, cropSeq, IdxS.stepOk, IdxS.toPIdx, crop, pad, normSlice, List.length_cons, List.length_nil,
+    List.all_cons, List.all_nil, Bool.and_true]
+  simp only [wr _ _ hx, wr _ _ hy, wr _ (pady + ny) (by simp at hny; omega), wr _ (padx + nx) (by simp at hnx; omega)]
+  simp only [show ¬ (0 + 1 + 1 > 2) by omega, if_false, Bool.not_eq_true, not_true_eq_false, Except.ok.injEq,
+    GeoBox.mk.injEq, and_true]
+  refine ⟨by omega, by omega, ?_⟩
+  apply Aff.ext' <;> simp [Aff.mul_def, Aff.mul, Aff.translation] <;> ring
+
+/-- **pad undoes an inner crop of equal margins**: padding the window `[q : ny − q, p : nx − p]` by `(p, q)` gives
+back `gbox`. -/
+theorem pad_of_crop (g : GeoBox) (p q : Int) (hp : 0 ≤ p) (hq : 0 ≤ q) (hx : p ≤ g.nx - p) (hy : q ≤ g.ny - q) :
+    pad (crop g (.two (.slc (some q) (some (g.ny - q))) (.slc (some p) (some (g.nx - p))))) p (some q) = g := by
+  have wr : ∀ (n a : Int), 0 ≤ a → wrapNeg n a = a := by intro n a ha; simp [wrapNeg, ha]
+  obtain ⟨ny, nx, ⟨a, b, c, d, e, f⟩, crs⟩ := g
+  simp only [crop, pad, normSlice] at *
+  simp only [wr _ _ hp, wr _ _ hq, wr _ (ny - q) (by omega), wr _ (nx - p) (by omega), GeoBox.mk.injEq, and_true]
+  refine ⟨by omega, by omega, ?_⟩
+  apply Aff.ext' <;> simp [Aff.mul_def, Aff.mul, Aff.translation] <;> ring
+
+/-- **`zoom_to(shape)` is `zoom_out(k)`** when the shape divides evenly: `gbox.zoom_to((ny/k, nx/k)) =
+gbox.zoom_out(k)` for every positive rational `k` with `ny = k·ny'`, `nx = k·nx'`. -/
+theorem zoom_to_shape_eq_zoom_out (g : GeoBox) (ny' nx' : Int) (k : Rat) (hk : 0 < k) (hy' : 1 ≤ ny') (hx' : 1 ≤ nx')
+    (hy : (g.ny : Rat) = k * ny') (hx : (g.nx : Rat) = k * nx') :
+    zoomToShape g ny' nx' = zoomOut g k := by
+  have hk0 : k ≠ 0 := ne_of_gt hk
+  have h0 : ¬ (ny' = 0 ∨ nx' = 0) := by omega
+  have hy0 : (ny' : Rat) ≠ 0 := by exact_mod_cast (by omega : ny' ≠ 0)
+  have hx0 : (nx' : Rat) ≠ 0 := by exact_mod_cast (by omega : nx' ≠ 0)
+  have cy : ceil1 ((g.ny : Rat) / k) = ny' := by
+    rw [hy, mul_div_cancel_left₀ _ hk0]; simp only [ceil1, ceil_intCast']; omega
+  have cx : ceil1 ((g.nx : Rat) / k) = nx' := by
+    rw [hx, mul_div_cancel_left₀ _ hk0]; simp only [ceil1, ceil_intCast']; omega
+  simp only [zoomToShape, h0, if_false, zoomOut, hk0, cy, cx]
+  rw [hx, hy, mul_div_cancel_right₀ _ hx0, mul_div_cancel_right₀ _ hy0]
+
+/-- … and zooming back to the original shape after such a `zoom_out` restores the geobox. -/
+theorem zoom_out_zoom_to_roundtrip (g g' : GeoBox) (ny' nx' : Int) (k : Rat) (hk : 0 < k) (hy' : 1 ≤ ny') (hx' : 1 ≤ nx')
+    (hy : (g.ny : Rat) = k * ny') (hx : (g.nx : Rat) = k * nx') (h : zoomOut g k = .ok g') :
+    zoomToShape g' g.ny g.nx = .ok g := by
+  rw [← zoom_to_shape_eq_zoom_out g ny' nx' k hk hy' hx' hy hx] at h
+  have hny : g.ny ≠ 0 := by
+    intro h0; rw [h0] at hy
+    have : (ny' : Rat) = 0 := by
+      have := mul_eq_zero.mp hy.symm
+      rcases this with h1 | h1
+      · exact absurd h1 (ne_of_gt hk)
+      · exact h1
+    have : ny' = 0 := by exact_mod_cast this
+    omega
+  have hnx : g.nx ≠ 0 := by
+    intro h0; rw [h0] at hx
+    have : (nx' : Rat) = 0 := by
+      have := mul_eq_zero.mp hx.symm
+      rcases this with h1 | h1
+      · exact absurd h1 (ne_of_gt hk)
+      · exact h1
+    have : nx' = 0 := by exact_mod_cast this
+    omega
+  exact zoom_to_shape_roundtrip g g' ny' nx' h hny hnx
+
+/-- **`gbox * T` and `T * gbox` are associative and commute with each other and with every view**: pixel-side
+factors accumulate on the right, world-side factors on the left, and crop / pad / flips / pixel translation /
+`zoom_out` of a world-side transformed geobox is the world-side transform of the view. -/
+theorem affine_composition_laws (g : GeoBox) (T S : Aff) :
+    mulPix (mulPix g T) S = mulPix g (T * S) ∧
+    mulWld S (mulWld T g) = mulWld (S * T) g ∧
+    mulWld T (mulPix g S) = mulPix (mulWld T g) S ∧
+    (∀ sy sx, crop (mulWld T g) (.two sy sx) = mulWld T (crop g (.two sy sx))) ∧
+    (∀ px py, pad (mulWld T g) px py = mulWld T (pad g px py)) ∧
+    flipx (mulWld T g) = mulWld T (flipx g) ∧ flipy (mulWld T g) = mulWld T (flipy g) ∧
+    (∀ tx ty, translatePix (mulWld T g) tx ty = mulWld T (translatePix g tx ty)) ∧
+    (∀ f, zoomOut (mulWld T g) f = (zoomOut g f).map (mulWld T)) := by
+  refine ⟨?_, ?_, ?_, ?_, ?_, ?_, ?_, ?_, ?_⟩
+  · simp [mulPix, Aff.mul_assoc']
+  · simp [mulWld, Aff.mul_assoc']
+  · simp [mulWld, mulPix, Aff.mul_assoc']
+  · intro sy sx; simp [mulWld, crop, Aff.mul_assoc']
+  · intro px py; simp [mulWld, pad, Aff.mul_assoc']
+  · simp [mulWld, flipx, mulPix, Aff.mul_assoc']
+  · simp [mulWld, flipy, mulPix, Aff.mul_assoc']
+  · intro tx ty; simp [mulWld, translatePix, mulPix, Aff.mul_assoc']
+  · intro f
+    by_cases hf : f = 0 <;> simp [zoomOut, hf, mulWld, Aff.mul_assoc', Except.map]
+
+/-! ## 12. regions in another CRS through a table; `coordinates` keys -/
+
+/-- A table that lists the image of every vertex makes `tableReproj` agree with any reprojection function that
+produced the table, on those vertices — so running the model with the table is running it with that function. -/
+theorem table_reproj_agrees (f : Nat → Nat → Pt → Pt) (src dst : Nat) (pts : List Pt) :
+    let table := pts.map (fun p => (p, f src dst p))
+    tableCovers table pts = true ∧ ∀ p ∈ pts, tableReproj table src dst p = f src dst p := by
+  intro table
+  have key : ∀ p ∈ pts, tableLookup table p = some (f src dst p) := by
+    intro p hp
+    simp only [tableLookup, table]
+    induction pts with
+    | nil => cases hp
+    | cons q qs ih =>
+      simp only [List.map_cons, List.find?_cons]
+      by_cases hq : q = p
+      · subst hq; simp
+      · have hqb : (q == p) = false := by simpa using hq
+        simp only [hqb]
+        rcases List.mem_cons.mp hp with h | h
+        · exact absurd h.symm hq
+        · exact ih h
+  refine ⟨?_, ?_⟩
+  · simp only [tableCovers, List.all_eq_true]
+    intro p hp; rw [key p hp]; rfl
+  · intro p hp; simp [tableReproj, key p hp]
+
+/-- the model run with the table is the model run with the function (index by a region in another CRS) -/
+theorem getitem_region_table (f : Nat → Nat → Pt → Pt) (g : GeoBox) (r : Region) :
+    getitem (tableReproj (r.pts.map (fun p => (p, f r.crs g.crs p)))) g (.region r) = getitem f g (.region r) := by
+  obtain ⟨_, hag⟩ := table_reproj_agrees f r.crs g.crs r.pts
+  simp only [getitem, cropRegionCrs]
+  have : r.pts.map (tableReproj (r.pts.map (fun p => (p, f r.crs g.crs p))) r.crs g.crs) = r.pts.map (f r.crs g.crs) :=
+    List.map_congr_left hag
+  rw [this]
+
+/-- `coordinates`: two entries, the **row** dimension first with resolution `A.e`, then the column dimension with
+`A.a`; named latitude / longitude exactly for a geographic CRS; `ValueError` iff not axis aligned. -/
+theorem coords_meta_spec (g : GeoBox) (k : CrsKind) :
+    (isAffineST g.A = false → coordsMeta g k = .error .valueError) ∧
+    (isAffineST g.A = true → coordsMeta g k = .ok [((dimensions k).1, g.A.e), ((dimensions k).2, g.A.a)]) ∧
+    ((dimensions k = ("latitude", "longitude")) ↔ k = .geographic) ∧
+    (k ≠ .geographic → dimensions k = ("y", "x")) := by
+  refine ⟨fun h => by simp [coordsMeta, h], fun h => by simp [coordsMeta, h], ?_, ?_⟩
+  · cases k <;> simp [dimensions]
+  · cases k <;> simp [dimensions]
+
 /-! ## 9. the hypotheses of the theorems above are satisfiable (instances on concrete geoboxes) -/
 
 def gEx : GeoBox := ⟨10, 20, ⟨2, 0, 100, 0, -2, 50⟩, 1⟩
@@ -934,5 +1119,23 @@ theorem footprint_buffer_dist_rotated (g : GeoBox) (hcrs : g.crs ≠ 0) (hns : i
   · intro hp; exact mul_pos hp (lt_max_of_lt_left hn)
 
 example : footprintBufferDist ⟨5, 7, ⟨6, -8, 1, 8, 6, 2⟩, 1⟩ 10 10 3 = .ok (some 30) := by decide +kernel
+
+example : getitem idR (pad gEx 3 (some 1)) (.seq [.slc (some 1) (some 11) none, .slc (some 3) (some 23) none]) = .ok gEx :=
+  crop_of_pad idR gEx 3 1 (by decide) (by decide) (by decide) (by decide)
+
+example : pad (crop gEx (.two (.slc (some 2) (some 8)) (.slc (some 3) (some 17)))) 3 (some 2) = gEx :=
+  pad_of_crop gEx 3 2 (by decide) (by decide) (by decide) (by decide)
+
+example : zoomToShape gEx 4 8 = zoomOut gEx (5 / 2) :=
+  zoom_to_shape_eq_zoom_out gEx 4 8 (5 / 2) (by norm_num) (by decide) (by decide) (by norm_num [gEx]) (by norm_num [gEx])
+
+example : zoomToShape ⟨4, 8, ⟨5, 0, 100, 0, -5, 50⟩, 1⟩ 10 20 = .ok gEx :=
+  zoom_out_zoom_to_roundtrip gEx _ 4 8 (5 / 2) (by norm_num) (by decide) (by decide) (by norm_num [gEx]) (by norm_num [gEx])
+    (by decide +kernel)
+
+example : rotateQuarter (rotateQuarter gEx 3) (-7) = rotateQuarter gEx (-4) := (rotate_quarter_add gEx 3 (-7)).1
+
+example : getitem (tableReproj [((10, 10), (3, -4))]) ⟨5, 7, ⟨2, 0, 0, 0, -2, 0⟩, 1⟩ (.region (.geom 2 [(10, 10)]))
+    = .ok ⟨1, 1, ⟨2, 0, 2, 0, -2, -4⟩, 1⟩ := by decide +kernel
 
 end OdcGeo.C02
